@@ -240,7 +240,7 @@ def _gen_stream_data(nat, rng, n):
     for _ in range(min(n, 150)):
         spans = []
         for ti in range(rng.randrange(0, 5)):
-            name = rng.choice(["W1", "W2", "W 3"])
+            name = rng.choice(["W1", "W2", "W 3", "w1"])
             tid = f"t{ti}"
             for j in range(rng.randrange(1, 5)):
                 spans.append([name, tid, rng.choice("AB"), f"{tid}.{j}", None if j == 0 else f"{tid}.{rng.randrange(j)}"])
